@@ -891,9 +891,46 @@ func ruleResolvedKeysWin(w *core.World, r *core.Report) {
 			}
 		}
 	}
-	if (found == nil && foundField == nil) || iter == nil {
+	// ... or there is no flag at all and "a node answered" is "the collected key list is not empty"
+	var resolvedField *ssa.FieldAddr
+	if found == nil && foundField == nil && iter != nil {
+		if mc, ok := iter.(ssa.CallInstruction).Common().Args[0].(*ssa.MakeClosure); ok && len(mc.Bindings) == 1 {
+			if bound, isFn := mc.Fn.(*ssa.Function); isFn && bound.Synthetic != "" {
+				for _, in := range core.OwnInstrs(bound) {
+					c, isCall := in.(*ssa.Call)
+					if !isCall || c.Call.StaticCallee() == nil {
+						continue
+					}
+					m := c.Call.StaticCallee()
+					for _, in2 := range core.OwnInstrs(m) {
+						st, isSt := in2.(*ssa.Store)
+						if !isSt {
+							continue
+						}
+						fa, isFa := st.Addr.(*ssa.FieldAddr)
+						if isFa && len(m.Params) > 0 && core.Unwrap(fa.X) == ssa.Value(m.Params[0]) && core.DependsOn(st.Val, isResultOf("pkg/redis/client/common.Strings", 0)) {
+							resolvedField = fa
+						}
+					}
+				}
+			}
+		}
+	}
+	if (found == nil && foundField == nil && resolvedField == nil) || iter == nil {
 		r.Undecided("resolveBisyncCommandKeys/resolved-keys-win", f.Pos(), "the node iteration or its 'answered' flag was not found")
 		return
+	}
+	isResolvedLen := func(v ssa.Value) bool {
+		c, ok := core.Unwrap(v).(*ssa.Call)
+		if !ok || !isBuiltin(c, "len") || resolvedField == nil {
+			return false
+		}
+		ld, ok := core.Unwrap(c.Call.Args[0]).(*ssa.UnOp)
+		if !ok || ld.Op != token.MUL {
+			return false
+		}
+		fa, ok := ld.X.(*ssa.FieldAddr)
+		return ok && fa.Field == resolvedField.Field && types.Identical(recordOf(fa), recordOf(resolvedField))
 	}
 	isFound := func(v ssa.Value) bool {
 		ld, ok := core.Unwrap(v).(*ssa.UnOp)
@@ -904,7 +941,7 @@ func ruleResolvedKeysWin(w *core.World, r *core.Report) {
 			fa, isFa := ld.X.(*ssa.FieldAddr)
 			return isFa && fa.Field == foundField.Field && types.Identical(recordOf(fa), recordOf(foundField))
 		}
-		return core.Cell(ld.X) == found
+		return found != nil && core.Cell(ld.X) == found
 	}
 	bad := ""
 	var pos token.Pos = f.Pos()
@@ -937,6 +974,9 @@ func ruleResolvedKeysWin(w *core.World, r *core.Report) {
 					seen = true
 				}
 			}
+		}
+		if !seen && resolvedField != nil {
+			seen = p.Holds(token.LEQ, isResolvedLen, isConstInt(0)) || p.Holds(token.EQL, isResolvedLen, isConstInt(0))
 		}
 		if !seen {
 			bad, pos = "an error is reported after the nodes were asked on a path that did not establish that no node answered: keys that one node resolved are thrown away because another node failed, and a single-slot command is refused", ret.Pos()
